@@ -38,11 +38,11 @@ import (
 
 const (
 	maxStack     = 64 << 20
-	caseLimit    = 4 * time.Second
+	caseLimit    = 3 * time.Second
 	defaultRSS   = 1 << 30
 	exitTime     = 97
 	exitMemory   = 98
-	chunkDefault = 1500
+	chunkDefault = 250
 )
 
 func main() {
@@ -183,6 +183,9 @@ func sanitize(s string) string {
 // area of the code a recursion / panic happened in (narrow, stable names)
 func area(fn string) string {
 	switch {
+	case strings.Contains(fn, "FetchItemDataBodySection).discard") || strings.Contains(fn, "FetchItemDataBinarySection).discard") ||
+		strings.Contains(fn, "FetchItemDataBodySection.discard") || strings.Contains(fn, "FetchItemDataBinarySection.discard"):
+		return "fetch-section-nil-literal"
 	case strings.Contains(fn, "readBody"):
 		return "bodystructure"
 	case strings.Contains(fn, "BodyStructureMultiPart).walk") || strings.Contains(fn, "BodyStructureMultiPart).Walk"):
@@ -216,6 +219,38 @@ func lineOf(cs *Case) []byte {
 	return render(cs.Toks, tag)
 }
 
+// which response the violated invariant sits in: the first response or response-code name of the
+// line (signatures name the response, not the pending command: the parser is the same)
+var respNames = map[string]bool{"APPENDUID": true, "COPYUID": true, "FETCH": true, "EXPUNGE": true, "EXISTS": true, "RECENT": true,
+	"SEARCH": true, "ESEARCH": true, "SORT": true, "THREAD": true, "LIST": true, "STATUS": true, "QUOTA": true, "QUOTAROOT": true,
+	"METADATA": true, "NAMESPACE": true, "FLAGS": true, "CAPABILITY": true, "ENABLED": true, "PERMANENTFLAGS": true,
+	"UIDNEXT": true, "UIDVALIDITY": true, "HIGHESTMODSEQ": true}
+
+func respKind(cs *Case) string {
+	lo, hi := 0, len(cs.Toks)
+	if cs.WhyAt > 0 && cs.WhyAt <= len(cs.Toks) {
+		// the response (between two CRLFs) that holds the violating token
+		for i := cs.WhyAt - 1; i >= 0; i-- {
+			if cs.Toks[i] == "CRLF" && i < cs.WhyAt-1 {
+				lo = i + 1
+				break
+			}
+		}
+		for i := cs.WhyAt - 1; i < len(cs.Toks); i++ {
+			if cs.Toks[i] == "CRLF" {
+				hi = i
+				break
+			}
+		}
+	}
+	for _, t := range cs.Toks[lo:hi] {
+		if respNames[t] {
+			return strings.ToLower(t)
+		}
+	}
+	return cs.Kind
+}
+
 // monitors that apply to every input, classified or not
 func (r *reporter) monitors(cs *Case, o *Obs) (fatal bool) {
 	line := lineOf(cs)
@@ -226,10 +261,10 @@ func (r *reporter) monitors(cs *Case, o *Obs) (fatal bool) {
 				fmt.Sprintf("%s: the process died with a stack overflow (max stack %d MiB) in the %s phase, recursing in %s; expected: an error for over-deep nesting. %s",
 					describe(cs, line), maxStack>>20, o.CrashIn, o.CrashAt, o.CrashTail), cs)
 		case "memory-limit":
-			r.mismatch("memory-blowup/"+cs.Kind+"/"+o.CrashIn,
+			r.mismatch("memory-blowup/"+respKind(cs)+"/"+o.CrashIn,
 				fmt.Sprintf("%s: resident memory exceeded the limit in the %s phase on an input of %d bytes", describe(cs, line), o.CrashIn, len(line)), cs)
 		case "time-limit":
-			r.mismatch("nonreturn/"+cs.Kind+"/"+o.CrashIn,
+			r.mismatch("nonreturn/"+respKind(cs)+"/"+o.CrashIn,
 				fmt.Sprintf("%s: no return within the limit in the %s phase (confirmed with a longer limit)", describe(cs, line), o.CrashIn), cs)
 		default:
 			r.mismatch("crash/"+area(o.CrashAt),
@@ -245,6 +280,9 @@ func (r *reporter) monitors(cs *Case, o *Obs) (fatal bool) {
 		name := p
 		if i := strings.Index(p, ":"); i > 0 {
 			name = p[:i]
+		}
+		if strings.HasPrefix(name, "imapclient.") || strings.HasPrefix(name, "imap.") || strings.HasPrefix(name, "internal/") {
+			name = area(name) // a go-imap function taken from the panic's stack
 		}
 		r.mismatch("accessor-panic/"+sanitize(name),
 			fmt.Sprintf("%s: %s; delivered=%v err=%q", describe(cs, line), p, o.Delivered, o.ErrText), cs)
@@ -264,7 +302,7 @@ func (r *reporter) judge(cs *Case, o *Obs) {
 	switch cs.Class {
 	case "E":
 		if !o.Err {
-			r.mismatch("not-rejected/"+cs.Why+"/"+cs.Kind,
+			r.mismatch("not-rejected/"+cs.Why+"/"+respKind(cs),
 				fmt.Sprintf("%s: the specification classifies the line MustError (%s) but the call returned without error (values delivered=%d, zero delivered=%v, '*' set delivered=%v)",
 					describe(cs, line), cs.Why, o.Values, o.Zero, o.Dynamic), cs)
 		}
@@ -278,7 +316,7 @@ func (r *reporter) judge(cs *Case, o *Obs) {
 			got = o.ErrKind
 		}
 		if got != want {
-			r.mismatch("conformant-rejected/"+cs.Kind+"/"+sanitize(cs.Base),
+			r.mismatch("conformant-rejected/"+sanitize(cs.Base),
 				fmt.Sprintf("%s: the specification classifies the line MustDeliver (completion %s) but the call reported %s: %s",
 					describe(cs, line), want, got, o.ErrText), cs)
 		}
